@@ -718,3 +718,12 @@ fn c05_open_entry_pw() {
     }
     core::mem::forget(ar);
 }
+
+
+/// The ZipFile that by_index_raw hands out once find_content has positioned the reader on the
+/// entry data (c03_entry_read_* show data start and limit): metadata borrowed, no crypto
+/// reader, raw reader limited to the compressed size. Used by the raw-copy harness in h_write.rs.
+pub(crate) fn mk_raw_zipfile<'a>(data: &'a ZipFileData, reader: &'a mut dyn Read) -> ZipFile<'a> {
+    let n = data.compressed_size;
+    ZipFile { data: Cow::Borrowed(data), crypto_reader: None, reader: ZipFileReader::Raw(reader.take(n)) }
+}
